@@ -67,6 +67,15 @@ def gen_cases(rng, tier):
     xs, ys = gen_data(rng, nrows)
     cases.append({"kind": "reader", "x": xs, "y": ys, "seed": rng.randrange(1 << 30), "final_newline": bool(k % 2), "crlf": k % 4 >= 2,
                   "shuffle": k % 3 == 0, "comments": k % 5 == 0})
+  # row orders a file can plausibly arrive in other than sorted or fully shuffled: sorted as TEXT (what `sort` without -n
+  # leaves: 0.5 1.0 10.0 2.0 25.0 4.0), descending, one adjacent pair swapped, the last row first, the first row last
+  for k in range(15 if tier == "quick" else 150):
+    nrows = rng.choice([4, 6, 9, 15, 40])
+    xs = sorted(set(round(rng.choice([rng.uniform(0.1, 9.9), rng.uniform(10.0, 99.0), rng.uniform(100.0, 500.0)]), rng.choice([1, 2])) for _ in range(nrows * 2)))[:max(3, nrows)]
+    xs = sorted(rng.sample(xs, min(len(xs), nrows))) if len(xs) > nrows else xs
+    ys = [round(rng.uniform(-5.0, 5.0), 4) for _ in xs]
+    cases.append({"kind": "reader", "x": xs, "y": ys, "seed": rng.randrange(1 << 30), "final_newline": bool(k % 2), "crlf": False, "shuffle": False,
+                  "order": ["text", "descending", "one_swap", "last_first", "first_last"][k % 5], "comments": k % 4 == 0, "spellings": False})
   # data of extreme magnitude (x and y scaled by powers of ten up to 1e+-160; each harmless alone): the interpolant between
   # two rows is still the straight line between them
   for k, (ex, ey) in enumerate([(160, 160), (-170, -170), (156, 158), (-166, -168), (150, 150), (160, 140), (-150, -150), (-160, -140), (150, -150), (-150, 150), (100, 200), (-100, -200), (0, 300), (0, -300)]):
@@ -192,6 +201,20 @@ def run_reader(case, ctx):
   order = list(rows)
   if case["shuffle"]:
     rng.shuffle(order)
+  how = case.get("order")
+  if how == "text":
+    order.sort(key=lambda ab: repr(ab[0]))
+  elif how == "descending":
+    order.reverse()
+  elif how == "one_swap":
+    j = rng.randrange(len(order) - 1)
+    order[j], order[j + 1] = order[j + 1], order[j]
+  elif how == "last_first":
+    order.insert(0, order.pop())
+  elif how == "first_last":
+    order.append(order.pop(0))
+  if how:
+    ctx.cls("row_order:" + how + ("" if order != rows else "(same as sorted)"))
   nl = "\r\n" if case["crlf"] else "\n"
   lines = []
   st = emit.Style(rng)
